@@ -13,7 +13,7 @@ import (
 func init() {
 	register(&propDef{
 		id: "C12", level: "other", perCfg: false,
-		explain: "Necessary structural conditions of C12, decided for all paths. X1 in the handler-facing error reply function (found by role: the exported Call method that takes an error name and reaches the write helper with the Error member set to that name): the only edges that lead to a return without the reply are `LastIndex(name,\".\") <= 0` and `name[:r] == \"org.varlink.service\"`; both return a non-nil error with no write reachable; the reply carries Error = name and Parameters = parameters unchanged. X2 four-way table agreement for each standard error E of the built-in interface (read from the org.varlink.service description embedded in the repository): the helper Reply<E> (in its inlined view, down to the function that takes the finished reply, so it may build the reply itself or go through the generic error-reply function) hands over exactly one reply literal {Error: org.varlink.service.<E>, Parameters: *<E> whose single member is the helper's argument} to the write path; <E>.Error() returns the same constant; DispatchError has an arm for the same constant that decodes into a fresh <E> and returns its address, returning the untyped error when the parameters do not decode; the JSON tag of <E>'s member equals the field name in the description. X3 client side: the Error value carries the frame's error member as Name and Error() returns Name (with C11.N4). X3 also: both members of the client's Error value are set on every path to the typed conversion. X4 (= C02.F1) the frame is the encoder's rendering of the reply (no hand-built frames). X5 the convenience API (Call and the helpers built on it, two levels above Send) returns as its error nil or exactly an error result of Send / of the function Send returned: the *Error or dedicated typed error is not wrapped or re-created.",
+		explain: "Necessary structural conditions of C12, decided for all paths. X1 in the handler-facing error reply function (found by role: the exported Call method that takes an error name and reaches the write helper with the Error member set to that name): the only edges that lead to a return without the reply are `LastIndex(name,\".\") <= 0` and `name[:r] == \"org.varlink.service\"`; both return a non-nil error with no write reachable; the reply carries Error = name and Parameters = parameters unchanged. X2 four-way table agreement for each standard error E of the built-in interface (read from the org.varlink.service description embedded in the repository): the helper Reply<E> (in its inlined view, down to the function that takes the finished reply, so it may build the reply itself or go through the generic error-reply function) hands over exactly one reply literal {Error: org.varlink.service.<E>, Parameters: *<E> whose single member is the helper's argument} to the write path; <E>.Error() returns the same constant; DispatchError has an arm for the same constant that decodes into a fresh <E> and returns its address, returning the untyped error when the parameters do not decode; the JSON tag of <E>'s member equals the field name in the description. X3 client side: the Error value carries the frame's error member as Name and Error() returns Name (with C11.N4). X3 also: both members of the client's Error value are set on every path to the typed conversion. X4 (= C02.F1) the frame is the encoder's rendering of the reply (no hand-built frames). X5 the convenience API (Call and the helpers built on it, two levels above Send) returns as its error nil or exactly an error result of Send / of the function Send returned: the *Error or dedicated typed error is not wrapped or re-created. X2 also: the typed conversion decodes parameters iff they are present.",
 		notDec:  "JSON equality of the parameters themselves (delegated to encoding/json given raw pass-through, see C03).",
 		trusted: []string{"strings.LastIndex contract"},
 		run:     runC12,
